@@ -25,6 +25,7 @@ from pathlib import Path
 from src.core.constants import Language
 from src.linters.lazy_ignores.directive_utils import (
     create_directive_no_rules,
+    multiline_string_interior,
     normalize_path,
 )
 from src.linters.lazy_ignores.types import IgnoreDirective, IgnoreType
@@ -95,6 +96,12 @@ def _get_python_scannable_lines(code: str) -> list[tuple[int, str]]:
     Returns:
         List of (line_number, line_text) tuples for scannable lines
     """
+    interior = multiline_string_interior(code)
+    if interior is not None:
+        lines = enumerate(code.split("\n"), start=1)
+        return [(line_num, line) for line_num, line in lines if line_num not in interior]
+
+    # The tokenizer gave up (broken source): fall back to counting triple quotes per line
     in_docstring = [False, False]  # [triple_double, triple_single]
     quotes = ['"""', "'''"]
     scannable: list[tuple[int, str]] = []
